@@ -126,6 +126,12 @@ Theorem C01_sequence_defines_all_names : forall n es f r f',
   forall nm, In nm (def_single (Seq es)) \/ In nm (def_list (Seq es)) -> ast_has (fast f') (safekey unsafe nm) = true.
 Proof. exact (peval_sequence_defines_all_names text re_at isalnum isalpha lower upper ic unsafe rules ec act lineat). Qed.
 
+(* the same in the engine as it runs (memo cache, seeds, the seed-growing loop, every configuration) *)
+Theorem C01_sequence_defines_all_names_faithful : forall n es f st r f' st',
+  feval' (S n) (Seq es) f st = (Ok r f', st') ->
+  forall nm, In nm (def_single (Seq es)) \/ In nm (def_list (Seq es)) -> ast_has (fast f') (safekey unsafe nm) = true.
+Proof. exact (feval_sequence_defines_all_names text re_at isalnum isalpha lower upper ic unsafe rules ec act lineat). Qed.
+
 (* ... and the value of a rule whose body is such a sequence (no override) is the dict that holds all of them *)
 Theorem C01_sequence_rule_value_is_dict : forall n es p r fb,
   peval' (S n) (Seq es) (push (newf p)) = Ok r fb ->
@@ -181,6 +187,7 @@ Print Assumptions C01_assoc_join.
 Print Assumptions C01_names_are_never_removed.
 Print Assumptions C01_sequence_defines_all_names.
 Print Assumptions C01_sequence_rule_value_is_dict.
+Print Assumptions C01_sequence_defines_all_names_faithful.
 Print Assumptions C01_defaults_are_none_or_empty_list.
 Print Assumptions C01_left_join_tree.
 Print Assumptions C01_right_join_tree.
